@@ -60,7 +60,38 @@ func onceAssignedClosure(ld *ssa.UnOp) *ssa.MakeClosure {
 	if ld.Op != token.MUL {
 		return nil
 	}
-	al, ok := ld.X.(*ssa.Alloc)
+	cell := ld.X
+	// a captured variable: the cell of the function that created the closure (followed outwards)
+	for hop := 0; hop < 3; hop++ {
+		fv, isFV := cell.(*ssa.FreeVar)
+		if !isFV {
+			break
+		}
+		inner := fv.Parent()
+		outer := inner.Parent()
+		if outer == nil {
+			return nil
+		}
+		idx := -1
+		for i, x := range inner.FreeVars {
+			if x == fv {
+				idx = i
+			}
+		}
+		var bound ssa.Value
+		for _, b := range outer.Blocks {
+			for _, in := range b.Instrs {
+				if mc, ok := in.(*ssa.MakeClosure); ok && mc.Fn == ssa.Value(inner) && idx >= 0 && idx < len(mc.Bindings) {
+					bound = mc.Bindings[idx]
+				}
+			}
+		}
+		if bound == nil {
+			return nil
+		}
+		cell = bound
+	}
+	al, ok := cell.(*ssa.Alloc)
 	if !ok || al.Referrers() == nil {
 		return nil
 	}
@@ -100,7 +131,9 @@ func onceAssignedClosure(ld *ssa.UnOp) *ssa.MakeClosure {
 			}
 		}
 	}
-	if n != 1 {
+	if n != 1 || !cellStableForClosures(al) {
+		// (one store instruction inside a loop the variable is declared outside of is one store per round: every
+		// closure made in the loop then shares the cell and sees the last round's value)
 		return nil
 	}
 	return found
